@@ -23,7 +23,7 @@ def regen(ctx):
 
 SPEC = dict(
     level="proof",
-    harness=dict(pkg_dir="index", run="TestVerifC29$", files=["index/zz_verif_c29_test.go"], n_quick=160, n_thorough=2500),
+    harness=dict(pkg_dir="index", run="TestVerifC29$", files=["index/zz_verif_c29_test.go"], n_quick=110, n_thorough=2500),
     runner=dict(imports=["From Coq Require Import QArith.", "From ZV Require Import Lib.Base Model.Score."], case_type="c29case",
                 mismatch_fn="c29_mismatches", shard=120),
     rule="1-3 in-memory shards (distinct repo ranks incl. 0 and 65535) x 1-6 documents (4 extensions/languages, words with "
